@@ -35,6 +35,15 @@ def _world(vc):
     OB, Sum, Prod = om.ObservableBase, om.SumObservable, om.ProdObservable
     SBSum = A.sandbox_class(Sum, vc)
     SBProd = A.sandbox_class(Prod, vc)
+    # inside the recompiled classes the names SumObservable / ProdObservable denote the recompiled classes themselves, so
+    # that `type(x) is SumObservable` and `isinstance` tests in the library's code see the objects under contract
+    import types
+    for cls_ in (SBSum, SBProd):
+        for v in vars(cls_).values():
+            fn = v if isinstance(v, types.FunctionType) else getattr(v, "__func__", None)
+            if isinstance(fn, types.FunctionType) and fn.__globals__ is not globals():
+                fn.__globals__["SumObservable"] = SBSum
+                fn.__globals__["ProdObservable"] = SBProd
     opnames = ["__neg__", "__add__", "__sub__", "__mul__", "__radd__", "__rsub__", "__rmul__"]
     ops = {}
     rew = []
